@@ -69,7 +69,11 @@ FLAVOURS = {
     # the body closes the stream it prints to (code under test that closes the file it was handed): that stream is the
     # library's capture stream, every later part of the run has to cope with it
     'closes_stdout': ['>>> import sys', '>>> sys.stdout.close()'],
+    # a statement that depends on an optional module: the module's name is looked up along sys.path (which, in this
+    # flavour, starts with the empty string like in an interactive session or under python -c)
+    'requires_module': ['>>> opt_zz = 1  # xdoctest: +REQUIRES(module:xv_nx_{n}_zz)'],
 }
+_COUNTER = [0]
 POSITIONS = ['first', 'middle', 'last']
 ON_ERROR = ['return', 'raise']
 VERBOSE = [0, 3]
@@ -94,7 +98,8 @@ def build(outcome, flavour, pos):
     L = []
     if outcome == 'all_skip':
         L.append('>>> # xdoctest: +SKIP')
-    L += FLAVOURS[flavour]
+    _COUNTER[0] += 1
+    L += [ln.replace('{n}', '%d_%d' % (os.getpid(), _COUNTER[0])) for ln in FLAVOURS[flavour]]
     for k in range(pre):
         L += ['>>> a%d = %d' % (k, k)]
     L += OUTCOMES[outcome] or []
@@ -170,11 +175,18 @@ def check_doctest(ctx, outcome, flavour, pos, on_error, verbose, mode='native'):
 
     real = sys.stdout
     sys.stdout = sink if verbose else real
+    if flavour == 'requires_module':
+        sys.path.insert(0, '')
     try:
         result, ok = monitored(ctx, 'DocTest.run(on_error=%r, verbose=%d) in mode %r' % (on_error, verbose, mode), call, case,
                                '--- doctest (%s / %s / %s) ---\n%s' % (outcome, flavour, pos, doc))
     finally:
         sys.stdout = real
+        if flavour == 'requires_module':
+            for spelled in ('', '.'):
+                if sys.path and sys.path[0] == spelled:
+                    del sys.path[0]
+                    break
     if ok:
         ctx.cell('outcome:' + outcome)
         ctx.cell('flavour:' + flavour)
@@ -500,7 +512,7 @@ def classify(v):
     return None
 
 
-LEVEL_TEXT = ("Fault enumeration: the full table outcome x flavour x position x on_error x verbosity x mode (2016 runs) plus the import "
+LEVEL_TEXT = ("Fault enumeration: the full table outcome x flavour x position x on_error x verbosity x mode (2352 runs) plus the import "
               "kinds is executed with a process-state 'leak sanitizer' around every call: identities and values of the "
               "process globals before and after must be equal whatever the call returned or raised (SystemExit and "
               "KeyboardInterrupt included) and every event loop created in between must be closed.  Thorough adds a -X dev "
